@@ -50,6 +50,7 @@ def run(P, R, tier, cfg):
         _counters(P, R, L)
         _fixpoint(P, R, L)
         _pass_state_fresh(P, R, L)
+        _candidates_per_pass(P, R, L)
     _callees(P, R, fls)
 
 
@@ -348,6 +349,35 @@ def _fixpoint(P, R, L):
         R.hold("d", "%s: a pass visits every index of the salience vector (the rule loop ends only by exhaustion or error)" % fn.short_name, fn=fn)
     else:
         R.violate("d", "rule-loop-exit:%s:%s" % (fn.name, ",".join(sorted(outs))), "%s: the rule loop can end early without an error (%s): a pass that fired nothing may not have evaluated every eligible rule, so stopping is not a fixpoint" % (fn.short_name, outs), fn)
+
+
+def _candidates_per_pass(P, R, L):
+    """d''. Every pass walks the whole, current rule list: the index vector is taken from get_rules_by_salience() inside the cycle
+    body and is not narrowed (retain / truncate / filter) before the walk. A candidate list computed or filtered once, ahead of the
+    cycle loop, goes stale when a firing changes what is eligible (agenda focus, enabled flags): the next pass fires nothing and
+    execute stops although an eligible rule is true."""
+    fn = L.fn
+    it = L.inner_drv.get("iter_sym")
+    src = [x for x in walk(it) if x[0] == "call" and x[1].endswith("KnowledgeBase::get_rules_by_salience")] if it is not None else []
+    if not src:
+        R.violate("d", "candidates-source:%s" % fn.name, "%s: the rule loop does not walk get_rules_by_salience()" % fn.short_name, fn)
+        return
+    hoisted = not all(x[3] in L.outer["body"] for x in src)
+    narrowed = A.truncating_adapters(it)
+    for x in walk(it):
+        if x[0] == "var" and isinstance(x[1], str):
+            for loc in fn.local_by_name(x[1]):
+                for bb in sorted(fn.normal_blocks()):
+                    for st in fn.stmts(bb):
+                        if isinstance(st, list) and len(st) > 4 and st[2] == "=" and st[4][0] == "ref" and st[4][1] == 1 and st[4][2][0] == loc:
+                            narrowed = list(narrowed) + ["&mut %s at line %d" % (x[1], st[0])]
+    if narrowed:
+        R.violate("d", "narrowed-candidates:%s" % fn.name,
+                  "%s narrows or rewrites the rule list before walking it (%s%s): rules left out are never evaluated%s, so a pass can fire nothing and stop while an eligible rule is true" % (
+                      fn.short_name, narrowed[:2], ", once, ahead of the cycle loop" if hoisted else "",
+                      " in any later pass even after a firing changed what is eligible (ActivateAgendaGroup)" if hoisted else " in that pass"), fn)
+    else:
+        R.hold("d", "%s: each pass walks the full, un-narrowed get_rules_by_salience()%s" % (fn.short_name, " (taken once; the rule set cannot change during a run)" if hoisted else ""), fn=fn)
 
 
 def _pass_state_fresh(P, R, L):
